@@ -9,6 +9,7 @@ On the real code: twin instances with different hash seeds and commit schedules,
 -/
 import Brc20.Gen.Constants
 import Brc20.Props.C13
+import Brc20.Proofs.ReachProps
 
 namespace Brc20
 
@@ -44,5 +45,15 @@ theorem C02.scans_replica_independent {K V : Type} [DecidableEq K] [DecidableEq 
     (hc : AMap.Nodup t.cache) (hd : AMap.Nodup t.db) (hc' : AMap.Nodup t'.cache) (hd' : AMap.Nodup t'.db)
     (hl : ∀ k, t.latest k = t'.latest k) (lo hi : K) : t.getRange lt lo hi = t'.getRange lt lo hi :=
   C13.range_scan_order_independent st hc hd hc' hd' hl lo hi
+
+/-- **The same for every pair of reachable nodes** (two replicas, whatever calls, recorded events, commit schedules
+and in-memory iteration orders led to them): if a table reads the same on both, every range scan of it returns the
+same list. The duplicate-freeness hypotheses are discharged from reachability (`Node.Reach.table_nodup`). -/
+theorem C02.scans_replica_independent_reachable {lt : String → String → Bool} (st : Table.StrictTotal lt)
+    (n n' : Node) (hr : Node.Reach n) (hr' : Node.Reach n') (i : TId)
+    (hl : ∀ k, (n.t i).latest k = (n'.t i).latest k) (lo hi : String) :
+    (n.t i).getRange lt lo hi = (n'.t i).getRange lt lo hi :=
+  C02.scans_replica_independent st (hr.table_nodup i).2 (hr.table_nodup i).1 (hr'.table_nodup i).2
+    (hr'.table_nodup i).1 hl lo hi
 
 end Brc20
